@@ -79,3 +79,52 @@ def guard_margin(test, var, end_text, env):
     rest = expr._padd(r, endp, -1)
     a = expr._padd(a, rest, -1)
     return ('<' if isinstance(op, ast.Lt) else '<=', a)
+
+
+def unbounded_index_reads(fnode):
+    """[(subscript node, list name, index name)]: inside a loop, `L[i]` (load) where the local `i` is stepped (`i += k`) in the same
+    loop and nothing on the way to the read bounds `i` by `len(L)`: neither the loop test, nor an enclosing if / conditional
+    expression, nor a try that catches IndexError.  The walk it belongs to ends when the list is used up, not when the index
+    variable says so -- a list of referenced offsets that runs out before the extent does (a gap at the end) raises IndexError."""
+    import ast as _ast
+    par = {}
+    for n in _ast.walk(fnode):
+        for c in _ast.iter_child_nodes(n):
+            par[id(c)] = n
+    out = []
+    for loop in _ast.walk(fnode):
+        if not isinstance(loop, (_ast.While, _ast.For)):
+            continue
+        stepped = set(n.target.id for n in _ast.walk(loop) if isinstance(n, _ast.AugAssign) and isinstance(n.target, _ast.Name) and isinstance(n.op, _ast.Add))
+        for n in _ast.walk(loop):
+            if not (isinstance(n, _ast.Subscript) and isinstance(n.ctx, _ast.Load) and isinstance(n.value, _ast.Name) and
+                    isinstance(n.slice, _ast.Name) and n.slice.id in stepped):
+                continue
+            lst, idx = n.value.id, n.slice.id
+
+            def bounds(test):
+                names = set(x.id for x in _ast.walk(test) if isinstance(x, _ast.Name))
+                lens = any(isinstance(x, _ast.Call) and isinstance(x.func, _ast.Name) and x.func.id == 'len' and x.args and
+                           isinstance(x.args[0], _ast.Name) and x.args[0].id == lst for x in _ast.walk(test))
+                return idx in names and lens
+            ok = False
+            x = n
+            while id(x) in par and x is not fnode:
+                p = par[id(x)]
+                if isinstance(p, (_ast.If, _ast.While, _ast.IfExp)) and x is not p.test and bounds(p.test):
+                    ok = True
+                if isinstance(p, _ast.BoolOp) and isinstance(p.op, _ast.And) and any(bounds(v) for v in p.values[:p.values.index(x)] if x in p.values):
+                    ok = True
+                if isinstance(p, _ast.Try) and any(h.type is None or 'IndexError' in _ast.unparse(h.type) or 'Exception' in _ast.unparse(h.type) for h in p.handlers) and x in p.body:
+                    ok = True
+                x = p
+            if not ok:
+                out.append((n, lst, idx))
+    # a loop nested in another is visited twice
+    seen = set()
+    res = []
+    for n, l, i in out:
+        if id(n) not in seen:
+            seen.add(id(n))
+            res.append((n, l, i))
+    return res
